@@ -482,13 +482,22 @@ Proof.
   congruence.
 Qed.
 
-Lemma pass3_body_spec g0 m s nx s' :
+(* what one iteration of the third traversal does *)
+Definition p3step (m : list (nat * list nat)) (s s' : lstate) (nx : nat) : Prop :=
+  (s' = s /\ sg_label (ls_g s) nx <> Some GOr) \/
+  (s' = s /\ sg_label (ls_g s) nx = Some GOr /\ in_tab s nx) \/
+  (sg_label (ls_g s) nx = Some GOr /\ not_in_table s nx /\ tables_ok P st s' /\
+   ext (ls_g s) (ls_g s') [nx] /\
+   subst_rel (ls_g s') nx (sg_out (ls_g s) nx) (sg_out (ls_g s') nx) /\
+   exists cd, children_diff m (sg_out (ls_g s) nx) = Some cd /\ bstruct s s' nx (diff_go [] cd)).
+
+Lemma pass3_body_step g0 m s nx s' :
   diffs_ok FOK g0 m -> tables_ok P st s -> grow g0 (ls_g s) ->
-  pass3_body rc ord m s nx = Some s' -> tables_ok P st s' /\ grow (ls_g s) (ls_g s').
+  pass3_body rc ord m s nx = Some s' -> p3step m s s' nx.
 Proof.
   intros Hm Hok Hg H. unfold pass3_body in H.
   destruct (sg_label (ls_g s) nx) as [t|] eqn:Hnx; [|discriminate].
-  destruct t; try (injection H as <-; split; [exact Hok|apply grow_refl]).
+  destruct t; try (injection H as <-; left; split; [reflexivity|congruence]).
   destruct (children_diff m (sg_out (ls_g s) nx)) as [cd|] eqn:Ecd; [|discriminate].
   destruct (children_diff_spec m _ cd Ecd) as [Hfst Hcd].
   destruct (in_table (ls_tri s) nx) eqn:Etab.
@@ -508,14 +517,44 @@ Proof.
       rewrite (do_lit _ _ _ Hm p vp (Z.of_nat f) Hp); [now rewrite Zabs2Nat.id|].
       rewrite <- (gr_label _ _ Hg p Hap). exact Hlp. }
     subst vn vp. rewrite diff_go_tri in H. cbn [balance_or_children] in H. injection H as <-.
-    split; [exact Hok|apply grow_refl].
-  - destruct (balance_spec nx (diff_go [] cd) s s' Hok Hnx (in_table_false _ _ Etab)) as [Hok' [He [Hs _]]]; [| |exact H|].
+    right. left. split; [reflexivity|]. split; [exact Hnx|now exists f].
+  - destruct (balance_spec nx (diff_go [] cd) s s' Hok Hnx (in_table_false _ _ Etab)) as [Hok' [He [Hs Hb]]]; [| |exact H|].
     { intros c ms f Hin Hf. destruct (diff_go_In cd [] c ms f Hin Hf) as [_ [cv [Hcv Hfv]]].
       cbn [app] in Hcv. rewrite Forall_forall in Hcd.
       exact (do_pos _ _ _ Hm (fst cv) (snd cv) f (Hcd cv Hcv) Hfv). }
     { intros c ms Hin. apply diff_go_fst in Hin. rewrite Hfst in Hin.
       exact (proj2 (out_alive _ _ _ (proj1 (co_inv _ _ _ (proj1 Hok))) Hin)). }
-    split; [exact Hok'|]. now apply (balance_grow _ _ nx).
+    right. right. split; [exact Hnx|]. split; [exact (in_table_false _ _ Etab)|]. split; [exact Hok'|].
+    split; [exact He|]. split; [exact Hs|]. now exists cd.
+Qed.
+
+Lemma p3step_ok m s s' nx : tables_ok P st s -> p3step m s s' nx -> tables_ok P st s' /\ grow (ls_g s) (ls_g s').
+Proof.
+  intros Hok [[-> _]|[[-> _]|[Hnx [_ [Hok' [He [Hs _]]]]]]]; try (split; [exact Hok|apply grow_refl]).
+  split; [exact Hok'|]. now apply (balance_grow _ _ nx).
+Qed.
+
+Lemma pass3_body_spec g0 m s nx s' :
+  diffs_ok FOK g0 m -> tables_ok P st s -> grow g0 (ls_g s) ->
+  pass3_body rc ord m s nx = Some s' -> tables_ok P st s' /\ grow (ls_g s) (ls_g s').
+Proof. intros Hm Hok Hg H. exact (p3step_ok m s s' nx Hok (pass3_body_step g0 m s nx s' Hm Hok Hg H)). Qed.
+
+(* an invariant of the steps is an invariant of the traversal *)
+Theorem pass3_invariant (Q : lstate -> Prop) s root s' :
+  tables_ok P st s -> pass3 rc ord s root = Some s' -> Q s ->
+  (forall m s1 s2 nx, diffs_ok FOK (ls_g s) m -> tables_ok P st s1 -> grow (ls_g s) (ls_g s1) -> Q s1 ->
+                      p3step m s1 s2 nx -> Q s2) ->
+  Q s'.
+Proof.
+  intros Hok H HQ Hstep. unfold pass3 in H.
+  destruct (get_literal_diffs (ls_g s) root) as [m|] eqn:Em; [|discriminate].
+  pose proof (get_literal_diffs_ok FOK _ _ _ (fun z l Hz => P_abs l (co_pos _ _ _ (proj1 Hok) z l Hz)) Em) as Hm.
+  apply (dfs_fold_invariant _ _ (fun s1 => (tables_ok P st s1 /\ grow (ls_g s) (ls_g s1)) /\ Q s1)) in H; [exact (proj2 H)| |].
+  - intros s1 x s2 [[Hok1 Hg1] HQ1] Hb.
+    pose proof (pass3_body_step (ls_g s) m s1 x s2 Hm Hok1 Hg1 Hb) as Hst.
+    destruct (p3step_ok m s1 s2 x Hok1 Hst) as [Hok2 Hg2].
+    split; [split; [exact Hok2|exact (grow_trans _ _ _ Hg1 Hg2)]|]. exact (Hstep m s1 s2 x Hm Hok1 Hg1 HQ1 Hst).
+  - split; [split; [exact Hok|apply grow_refl]|exact HQ].
 Qed.
 
 Theorem pass3_grow s root s' : tables_ok P st s -> pass3 rc ord s root = Some s' ->
